@@ -56,6 +56,9 @@ Observed(e, s) ==
                   \A p \in Seats : /\ SetOf(e.hands[p + 1]) = s.hands[p]
                                    /\ IsSortedSeq(e.hands[p + 1])>>,
      <<"own", s.mode = "obs" => SetOf(e.own) = s.own /\ IsSortedSeq(e.own)>>,
+     \* the caller's own Hands object / hand set either follows the play or
+     \* keeps the original deal - never something in between
+     <<"caller-hands", "caller" \in DOMAIN e => e.caller # "neither">>,
      <<"dummy-hand", s.mode = "obs" =>
                        /\ e.dumset = s.dumSet
                        /\ s.dumSet => SetOf(e.dum) = s.dum>> >>
